@@ -101,11 +101,18 @@ type Field struct {
 	Go  string  `json:"go"`
 	T   *Schema `json:"t"`
 }
+type Alt struct {
+	Tag string  `json:"tag"`
+	Go  string  `json:"go"` // Go type of this version (same package as the wrapper)
+	T   *Schema `json:"t"`
+}
 type Schema struct {
-	K      string  `json:"k"` // bool int uint f64 str bin arr map ptr struct
+	K      string  `json:"k"` // bool int uint f64 str bin arr map ptr struct ver
 	Bits   int     `json:"bits,omitempty"`
 	Elem   *Schema `json:"elem,omitempty"`
 	Fields []Field `json:"fields,omitempty"`
+	Alts   []Alt   `json:"alts,omitempty"`  // ver: entitywrapper versions, sorted by tag
+	Wrap   string  `json:"wrap,omitempty"`  // ver: registered type name (TypeName())
 }
 type Entry struct {
 	Name     string  `json:"name"` // pkgname.Type
@@ -118,7 +125,12 @@ type Entry struct {
 
 // types of the tree that are outside the universe, with the reason (the translator fails on any
 // other unsupported construct)
-var knownUnsupported = map[string]string{}
+var knownUnsupported = map[string]string{
+	"state.StateContext":       "recursive type 0chain.net/chaincore/block.Block",
+	"tokenpool.ZcnLockingPool": "field type 0chain.net/chaincore/tokenpool.TokenLockInterface has a hand-written MarshalMsg",
+	"faucetsc.GlobalNode":      "time.Time (msgpack extension 5)",
+	"faucetsc.UserNode":        "time.Time (msgpack extension 5)",
+}
 
 type unsupported struct{ why string }
 
@@ -127,8 +139,135 @@ var genRe = regexp.MustCompile(`(?m)^func \(z \*?([A-Za-z0-9_]+)\) MarshalMsg\(`
 type pkgInfo struct {
 	lp         *listPkg
 	pkg        *types.Package
-	gen        map[string]bool // types with generated MarshalMsg
-	unexported bool            // generated with -unexported
+	files      []*ast.File
+	gen        map[string]bool              // types with generated MarshalMsg
+	unexported bool                         // generated with -unexported
+	shims      map[string]string            // type with hand-written MarshalMsg `d := shadow(*x); return d.MarshalMsg(o)` -> shadow
+	wrappers   map[string]map[string]string // wrapper type -> version tag -> Go type (entitywrapper.RegisterWrapper)
+	wrapName   map[string]string            // wrapper type -> TypeName()
+}
+
+// scanPkg finds the delegation shims and the entitywrapper registrations of a package (syntax).
+func scanPkg(pi *pkgInfo) {
+	pi.shims = map[string]string{}
+	pi.wrappers = map[string]map[string]string{}
+	pi.wrapName = map[string]string{}
+	recvName := func(fd *ast.FuncDecl) (string, string) {
+		if fd.Recv == nil || len(fd.Recv.List) != 1 {
+			return "", ""
+		}
+		t := fd.Recv.List[0].Type
+		if st, ok := t.(*ast.StarExpr); ok {
+			t = st.X
+		}
+		id, ok := t.(*ast.Ident)
+		if !ok {
+			return "", ""
+		}
+		v := ""
+		if len(fd.Recv.List[0].Names) == 1 {
+			v = fd.Recv.List[0].Names[0].Name
+		}
+		return id.Name, v
+	}
+	for _, f := range pi.files {
+		if strings.HasSuffix(fset.Position(f.Pos()).Filename, "_gen.go") {
+			continue
+		}
+		for _, d := range f.Decls {
+			fd, ok := d.(*ast.FuncDecl)
+			if !ok || fd.Body == nil {
+				continue
+			}
+			tn, rv := recvName(fd)
+			if tn != "" && fd.Name.Name == "MarshalMsg" && len(fd.Body.List) == 2 && len(fd.Type.Params.List) == 1 && len(fd.Type.Params.List[0].Names) == 1 {
+				// d := shadow(*x) ; return d.MarshalMsg(o)
+				as, ok1 := fd.Body.List[0].(*ast.AssignStmt)
+				rs, ok2 := fd.Body.List[1].(*ast.ReturnStmt)
+				if ok1 && ok2 && as.Tok == token.DEFINE && len(as.Lhs) == 1 && len(as.Rhs) == 1 && len(rs.Results) == 1 {
+					call, okc := as.Rhs[0].(*ast.CallExpr)
+					ret, okr := rs.Results[0].(*ast.CallExpr)
+					if okc && okr && len(call.Args) == 1 && len(ret.Args) == 1 {
+						sh, oks := call.Fun.(*ast.Ident)
+						star, okst := call.Args[0].(*ast.StarExpr)
+						sel, oksel := ret.Fun.(*ast.SelectorExpr)
+						if oks && okst && oksel && sel.Sel.Name == "MarshalMsg" {
+							x, okx := star.X.(*ast.Ident)
+							dv, okd := sel.X.(*ast.Ident)
+							lhs, okl := as.Lhs[0].(*ast.Ident)
+							arg, oka := ret.Args[0].(*ast.Ident)
+							if okx && okd && okl && oka && x.Name == rv && dv.Name == lhs.Name && arg.Name == fd.Type.Params.List[0].Names[0].Name {
+								pi.shims[tn] = sh.Name
+							}
+						}
+					}
+				}
+			}
+			if tn != "" && fd.Name.Name == "TypeName" && len(fd.Body.List) == 1 {
+				if rs, ok := fd.Body.List[0].(*ast.ReturnStmt); ok && len(rs.Results) == 1 {
+					if bl, ok := rs.Results[0].(*ast.BasicLit); ok && bl.Kind == token.STRING {
+						pi.wrapName[tn] = strings.Trim(bl.Value, "\"")
+					}
+				}
+			}
+			// entitywrapper.RegisterWrapper(&T{}, map[string]entitywrapper.EntityI{tag: &V{}, ...})
+			ast.Inspect(fd.Body, func(n ast.Node) bool {
+				call, ok := n.(*ast.CallExpr)
+				if !ok || len(call.Args) != 2 {
+					return true
+				}
+				sel, ok := call.Fun.(*ast.SelectorExpr)
+				if !ok || sel.Sel.Name != "RegisterWrapper" {
+					return true
+				}
+				wt := compositeType(call.Args[0])
+				cl, ok := call.Args[1].(*ast.CompositeLit)
+				if wt == "" || !ok {
+					die("%s: unrecognised RegisterWrapper call", fset.Position(call.Pos()))
+				}
+				m := map[string]string{}
+				for _, el := range cl.Elts {
+					kv, ok := el.(*ast.KeyValueExpr)
+					if !ok {
+						die("%s: unrecognised RegisterWrapper element", fset.Position(el.Pos()))
+					}
+					tag := ""
+					switch k := kv.Key.(type) {
+					case *ast.BasicLit:
+						tag = strings.Trim(k.Value, "\"")
+					case *ast.SelectorExpr:
+						if k.Sel.Name == "DefaultOriginVersion" {
+							tag = "v1"
+						}
+					}
+					vt := compositeType(kv.Value)
+					if tag == "" || vt == "" {
+						die("%s: unrecognised RegisterWrapper element", fset.Position(el.Pos()))
+					}
+					m[tag] = vt
+				}
+				pi.wrappers[wt] = m
+				return true
+			})
+		}
+	}
+}
+
+// &T{} -> "T"
+func compositeType(e ast.Expr) string {
+	u, ok := e.(*ast.UnaryExpr)
+	if !ok || u.Op != token.AND {
+		return ""
+	}
+	cl, ok := u.X.(*ast.CompositeLit)
+	if !ok || len(cl.Elts) != 0 {
+		return ""
+	}
+	id, ok := cl.Type.(*ast.Ident)
+	if !ok {
+		return ""
+	}
+	return id.Name
 }
 
 var pkgs = map[string]*pkgInfo{} // by import path
@@ -244,6 +383,42 @@ func derive(t types.Type, stack []string, unexp bool) (s *Schema) {
 			}
 		}
 		if f := hasMarshalMsg(x); f != nil && !isGenerated(x) {
+			var pi *pkgInfo
+			if o.Pkg() != nil {
+				pi = pkgs[o.Pkg().Path()]
+			}
+			if pi != nil {
+				if sh, ok := pi.shims[o.Name()]; ok && pi.gen[sh] {
+					so := pi.pkg.Scope().Lookup(sh)
+					if so == nil || types.TypeString(so.Type().Underlying(), nil) != types.TypeString(x.Underlying(), nil) {
+						panic(unsupported{"shim " + sh + " of " + full + " has a different underlying type"})
+					}
+					return derive(so.Type().Underlying(), append(stack, full), pi.unexported)
+				}
+				if vs, ok := pi.wrappers[o.Name()]; ok && f.Pkg() != nil && f.Pkg().Path() == "0chain.net/core/util/entitywrapper" {
+					s := &Schema{K: "ver", Wrap: pi.wrapName[o.Name()]}
+					if s.Wrap == "" {
+						panic(unsupported{"wrapper " + full + " without a literal TypeName()"})
+					}
+					var tags []string
+					for t := range vs {
+						tags = append(tags, t)
+					}
+					sort.Strings(tags)
+					for _, t := range tags {
+						vo := pi.pkg.Scope().Lookup(vs[t])
+						if vo == nil || !pi.gen[vs[t]] {
+							panic(unsupported{"version type " + vs[t] + " of " + full + " has no generated code"})
+						}
+						as := derive(vo.Type().Underlying(), append(stack, full), pi.unexported)
+						if as.K != "struct" {
+							panic(unsupported{"version type " + vs[t] + " is not a struct"})
+						}
+						s.Alts = append(s.Alts, Alt{Tag: t, Go: vs[t], T: as})
+					}
+					return s
+				}
+			}
 			panic(unsupported{"field type " + full + " has a hand-written MarshalMsg"})
 		}
 		un := unexp
@@ -285,6 +460,12 @@ func coq(s *Schema, ind string) string {
 		return "(TMap " + coq(s.Elem, ind) + ")"
 	case "ptr":
 		return "(TPtr " + coq(s.Elem, ind) + ")"
+	case "ver":
+		var as []string
+		for _, a := range s.Alts {
+			as = append(as, "("+"mk "+coqStr(a.Tag)+", "+coq(a.T, ind+"  ")+")")
+		}
+		return "(TVer [" + strings.Join(as, ";\n"+ind+"  ") + "])"
 	case "struct":
 		var fs []string
 		for _, f := range s.Fields {
@@ -377,7 +558,8 @@ func main() {
 		if pkg == nil {
 			die("type check of %s failed", path)
 		}
-		pkgs[path] = &pkgInfo{lp: lp, pkg: pkg, gen: dirs[lp.Dir], unexported: unexp[path]}
+		pkgs[path] = &pkgInfo{lp: lp, pkg: pkg, files: files, gen: dirs[lp.Dir], unexported: unexp[path]}
+		scanPkg(pkgs[path])
 	}
 	// NOTE: a Named type seen through export data of another package is a different object from
 	// the one type-checked from source; both are resolved by path+name through `pkgs`.
@@ -385,7 +567,19 @@ func main() {
 	for _, path := range paths {
 		pi := pkgs[path]
 		var names []string
+		top := map[string]bool{}
 		for n := range pi.gen {
+			top[n] = true
+		}
+		for n, sh := range pi.shims {
+			if pi.gen[sh] {
+				top[n] = true
+			}
+		}
+		for n := range pi.wrappers {
+			top[n] = true
+		}
+		for n := range top {
 			names = append(names, n)
 		}
 		sort.Strings(names)
@@ -394,6 +588,23 @@ func main() {
 			e := Entry{Name: pi.pkg.Name() + "." + n, Pkg: path, Type: n, Exported: ast.IsExported(n)}
 			if obj == nil {
 				die("%s: generated type %s not found in package scope", path, n)
+			}
+			if !pi.gen[n] {
+				// shim or wrapper: derive through the Named type itself
+				func() {
+					defer func() {
+						if r := recover(); r != nil {
+							u, ok := r.(unsupported)
+							if !ok {
+								panic(r)
+							}
+							e.Unsup = u.why
+						}
+					}()
+					e.Schema = derive(obj.Type(), nil, pi.unexported)
+				}()
+				entries = append(entries, e)
+				continue
 			}
 			func() {
 				defer func() {
